@@ -271,3 +271,377 @@ theorem del_op_arity (name : String) (n : Nat)
          | succ j => simp [delTable])
 
 end TelProofs
+
+/-! ### paths, dynamic formulas, elements -/
+
+namespace TelProofs
+open TelSpec TelModel TelModel.Generated
+
+theorem testThen_noInternal {α} (t : TTerm) (k : PTest → Py α) (hk : ∀ p, NoInternal (k p)) :
+    NoInternal (createAtom t true >>= fun x => atomToTest x >>= k) := by
+  refine noInternal_bind _ _ (createAtom_noInternal _ _) (fun f hf => ?_)
+  obtain ⟨n, a, q, rfl⟩ := createAtom_isAtom t true f hf
+  exact noInternal_bind _ _ (noInternal_ok _) (fun p _ => hk p)
+
+theorem path_unary_cases (name : String) (h : pathUnaryOperators.contains name = true) : name = "?" ∨ name = "*" := by
+  simp only [pathUnaryOperators, List.contains_cons, List.contains_nil, Bool.or_false, Bool.or_eq_true, beq_iff_eq] at h
+  rcases h with h | h <;> simp [h]
+
+theorem path_binary_cases (name : String) (h : pathBinaryOperators.contains name = true) : name = "+" ∨ name = ";;" := by
+  simp only [pathBinaryOperators, List.contains_cons, List.contains_nil, Bool.or_false, Bool.or_eq_true, beq_iff_eq] at h
+  rcases h with h | h <;> simp [h]
+
+theorem createPath_noInternal (t : TTerm) (hok : gringoOK delTable t = true) : NoInternal (createPath t) := by
+  fun_induction createPath t
+  all_goals (try simp only [py_throw, py_pure])
+  all_goals (try (simp only [gringoOK, gringoOKs, Bool.and_eq_true, Bool.and_true, List.length_cons, List.length_nil] at hok))
+  case case1 => exact testThen_noInternal _ _ (fun p => noInternal_ok _)
+  case case9 => exact testThen_noInternal _ _ (fun p => noInternal_ok _)
+  case case17 => exact testThen_noInternal _ _ (fun p => noInternal_ok _)
+  case case19 => exact testThen_noInternal _ _ (fun p => noInternal_ok _)
+  case case2 name a h =>
+    exfalso
+    rcases del_op_arity name 1 (Or.inl h) hok.1 with ⟨_, h2⟩ | ⟨h2, _⟩
+    · rcases path_binary_cases name h with rfl | rfl <;> revert h2 <;> decide
+    · omega
+  case case5 name a h1 h2 h3 h4 =>
+    exfalso
+    rcases path_unary_cases name h2 with rfl | rfl
+    · exact h3 (by decide)
+    · exact h4 (by decide)
+  case case13 name a b h1 h2 h3 h4 =>
+    exfalso
+    rcases path_unary_cases name h2 with rfl | rfl
+    · exact h3 (by decide)
+    · exact h4 (by decide)
+  case case18 name args hn1 hn2 h =>
+    exfalso
+    simp only [Bool.or_eq_true, beq_iff_eq] at h
+    have h' : pathBinaryOperators.contains name = true ∨ pathUnaryOperators.contains name = true ∨ delOperators.contains name = true ∨ name = "&" := by
+      rcases h with (h | h) | h
+      · exact Or.inl h
+      · exact Or.inr (Or.inl h)
+      · exact Or.inr (Or.inr (Or.inr h))
+    rcases del_op_arity name args.length h' hok.1 with ⟨hl, _⟩ | ⟨hl, _⟩
+    · match args, hl with
+      | [a], _ => exact hn1 a rfl
+    · match args, hl with
+      | [a, b], _ => exact hn2 a b rfl
+  case case3 name a h1 h2 h3 =>
+    exact noInternal_bind _ _ (createPathCheck_noInternal a hok.2) (fun _ _ => noInternal_ok _)
+  case case4 name a h1 h2 h3 h4 ih =>
+    exact noInternal_bind _ _ (ih hok.2) (fun _ _ => noInternal_ok _)
+  case case10 name a b h ih2 ih1 =>
+    refine noInternal_bind _ _ (ih2 hok.2.1) (fun l _ => ?_)
+    refine noInternal_bind _ _ (ih1 hok.2.2) (fun r _ => ?_)
+    rcases path_binary_cases name h with rfl | rfl <;> simp <;> exact noInternal_ok _
+  case case11 name a b h1 h2 h3 =>
+    exact noInternal_bind _ _ (createPathCheck_noInternal a hok.2.1) (fun _ _ => noInternal_ok _)
+  case case12 name a b h1 h2 h3 h4 ih =>
+    exact noInternal_bind _ _ (ih hok.2.1) (fun _ _ => noInternal_ok _)
+  all_goals (try noint3)
+
+theorem del_ops_cases (name : String) (h : delOperators.contains name = true) : name = ".>*" ∨ name = ".>?" := by
+  simp only [delOperators, List.contains_cons, List.contains_nil, Bool.or_false, Bool.or_eq_true, beq_iff_eq] at h
+  rcases h with h | h <;> simp [h]
+
+theorem createDynamicFormula_noInternal (t : TTerm) (hok : gringoOK delTable t = true) :
+    NoInternal (createDynamicFormula t) := by
+  fun_induction createDynamicFormula t
+  all_goals (try simp only [py_throw, py_pure])
+  all_goals (try (simp only [gringoOK, gringoOKs, Bool.and_eq_true, Bool.and_true, List.length_cons, List.length_nil] at hok))
+  all_goals (try (exact createAtom_noInternal _ _))
+  case case2 name a h =>
+    exfalso
+    rcases del_op_arity name 1 (Or.inr (Or.inr (Or.inl h))) hok.1 with ⟨_, h2⟩ | ⟨h2, _⟩
+    · rcases del_ops_cases name h with rfl | rfl <;> revert h2 <;> decide
+    · omega
+  case case10 name a b h ih =>
+    refine noInternal_bind _ _ (createPath_noInternal a hok.2.1) (fun p _ => ?_)
+    refine noInternal_bind _ _ (ih hok.2.2) (fun f _ => ?_)
+    rcases del_ops_cases name h with rfl | rfl <;> simp <;> exact noInternal_ok _
+  case case18 name args hn1 hn2 h =>
+    exfalso
+    simp only [Bool.or_eq_true, beq_iff_eq] at h
+    have h' : pathBinaryOperators.contains name = true ∨ pathUnaryOperators.contains name = true ∨ delOperators.contains name = true ∨ name = "&" := by
+      rcases h with h | h
+      · exact Or.inr (Or.inr (Or.inl h))
+      · exact Or.inr (Or.inr (Or.inr h))
+    rcases del_op_arity name args.length h' hok.1 with ⟨hl, _⟩ | ⟨hl, _⟩
+    · match args, hl with
+      | [a], _ => exact hn1 a rfl
+    · match args, hl with
+      | [a, b], _ => exact hn2 a b rfl
+  all_goals (try noint3)
+
+/-- `elemFormula` / `translate_elements` add no error of their own -/
+theorem elemFormula_noInternal (e : TElem) (dynamic : Bool)
+    (hok : gringoOK (if dynamic then delTable else bodyTable) e.term = true) : NoInternal (elemFormula e dynamic) := by
+  unfold elemFormula
+  refine noInternal_bind _ _ ?_ (fun f _ => ?_)
+  · cases dynamic
+    · exact createFormula_noInternal _ (by simpa using hok)
+    · exact createDynamicFormula_noInternal _ (by simpa using hok)
+  · split <;> exact noInternal_ok _
+
+theorem mapM_noInternal {α β} (f : α → Py β) (l : List α) (h : ∀ x ∈ l, NoInternal (f x)) : NoInternal (l.mapM f) := by
+  induction l with
+  | nil => simp only [List.mapM_nil]; exact noInternal_ok _
+  | cons x xs ih =>
+    simp only [List.mapM_cons]
+    refine noInternal_bind _ _ (h x List.mem_cons_self) (fun y _ => ?_)
+    refine noInternal_bind _ _ (ih (fun z hz => h z (List.mem_cons_of_mem _ hz))) (fun ys _ => noInternal_ok _)
+
+theorem translateElements_noInternal (els : List TElem) (dynamic : Bool)
+    (hok : ∀ e ∈ els, gringoOK (if dynamic then delTable else bodyTable) e.term = true) :
+    NoInternal (translateElements els dynamic) := by
+  unfold translateElements
+  refine noInternal_bind _ _ (mapM_noInternal _ _ (fun e he => elemFormula_noInternal e dynamic (hok e he))) (fun fs _ => noInternal_ok _)
+
+end TelProofs
+
+/-! ### head formulas -/
+
+namespace TelProofs
+open TelSpec TelModel TelModel.Generated
+
+theorem hCreateAtom_noInternal : ∀ t p, NoInternal (hCreateAtom t p) := by
+  intro t p
+  fun_induction hCreateAtom t p
+  all_goals (try simp only [py_throw, py_pure])
+  all_goals (try noint2)
+
+theorem hCreateFormula_noInternal (t : TTerm) (hok : gringoOK bodyTable t = true) : NoInternal (hCreateFormula t) := by
+  fun_induction hCreateFormula t
+  all_goals (try simp only [py_throw, py_pure])
+  all_goals (try (simp only [gringoOK, gringoOKs, Bool.and_eq_true, Bool.and_true, List.length_cons, List.length_nil] at hok))
+  all_goals (try (exact hCreateAtom_noInternal _ _))
+  case case2 name a h1 ih =>
+    exact noInternal_bind _ _ (ih hok.2) (fun f _ => noInternal_ok _)
+  case case4 name a h1 h2 h3 ih =>
+    refine noInternal_bind _ _ (ih hok.2) (fun f _ => ?_)
+    by_cases hs : (name == "<;" || name == "<:;" || name == ";>" || name == ";>:") = true
+    · exact absurd hok.1 (fun h => no_unary_seq name hs h)
+    · have hx := tel_ops_exhaustive name h2
+      simp only [Bool.or_eq_true, beq_iff_eq, not_or] at hs
+      rcases hx with h | h | h | h | h | h | h | h | h | h | h | h | h | h <;> subst h <;> simp_all [pastOps] <;> noint2
+  case case12 name a b h1 h2 ih2 ih1 =>
+    refine noInternal_bind _ _ (ih2 hok.2.1) (fun l _ => ?_)
+    exact noInternal_bind _ _ (ih1 hok.2.2) (fun r _ => noInternal_ok _)
+  case case15 name a b h1 h2 h3 ihb iha =>
+    refine noInternal_bind _ _ (ihb hok.2.2) (fun r _ => ?_)
+    have hx := tel_ops_exhaustive name h2
+    have hoff := createOffset_noInternal a
+    have hia := iha hok.2.1
+    rcases hx with h | h | h | h | h | h | h | h | h | h | h | h | h | h <;> subst h <;> simp_all [pastOps] <;> noint2
+  case case23 name args hn1 hn2 h =>
+    exfalso
+    simp only [Bool.or_eq_true, beq_iff_eq] at h
+    rcases op_arity name args.length h hok.1 with hl | hl
+    · match args, hl with
+      | [a], _ => exact hn1 a rfl
+    · match args, hl with
+      | [a, b], _ => exact hn2 a b rfl
+  all_goals (try noint2)
+end TelProofs
+
+/-! ### `TheoryParser.parse` -/
+
+namespace TelProofs
+open TelSpec TelModel TelModel.Generated
+
+/-- shape of the parser stack (top first): `wf true` — an operand is on top; `wf false` — an operand is expected -/
+def wf : Bool → List StackItem → Bool
+  | true, .term _ :: rest => wf false rest
+  | true, _ => false
+  | false, [] => true
+  | false, .op _ true :: rest => wf false rest
+  | false, .op _ false :: rest => wf true rest
+  | false, .term _ :: _ => false
+
+def opsIn (tbl : List OpEntry) (stack : List StackItem) : Prop :=
+  ∀ x ∈ stack, match x with | .op n u => (tableFind tbl n u).isSome = true | _ => True
+
+theorem opsIn_tail {tbl : List OpEntry} {x : StackItem} {s : List StackItem} (h : opsIn tbl (x :: s)) : opsIn tbl s :=
+  fun y hy => h y (List.mem_cons_of_mem _ hy)
+
+theorem opsIn_cons_term {tbl : List OpEntry} {t : PTree} {s : List StackItem} (h : opsIn tbl s) : opsIn tbl (.term t :: s) := by
+  intro y hy
+  rcases List.mem_cons.mp hy with rfl | hy
+  · trivial
+  · exact h y hy
+
+theorem opsIn_cons_op {tbl : List OpEntry} {n : String} {u : Bool} {s : List StackItem} (h : opsIn tbl s)
+    (hn : (tableFind tbl n u).isSome = true) : opsIn tbl (.op n u :: s) := by
+  intro y hy
+  rcases List.mem_cons.mp hy with rfl | hy
+  · exact hn
+  · exact h y hy
+
+/-- `__reduce` on a well-shaped stack with at least two items succeeds, keeps the shape and shortens the stack -/
+theorem preduce_ok (tbl : List OpEntry) (stack : List StackItem) (hw : wf true stack = true) (ho : opsIn tbl stack)
+    (hl : 1 < stack.length) :
+    ∃ s, preduce stack = .ok s ∧ wf true s = true ∧ opsIn tbl s ∧ s.length < stack.length := by
+  match stack, hw, hl with
+  | .term b :: .op name true :: rest, hw, _ =>
+    refine ⟨.term (.un name b) :: rest, rfl, ?_, ?_, by simp⟩
+    · simpa [wf] using hw
+    · exact opsIn_cons_term (opsIn_tail (opsIn_tail ho))
+  | .term b :: .op name false :: .term a :: rest, hw, _ =>
+    refine ⟨.term (.bin name a b) :: rest, rfl, ?_, ?_, by simp⟩
+    · simpa [wf] using hw
+    · exact opsIn_cons_term (opsIn_tail (opsIn_tail (opsIn_tail ho)))
+  | .term b :: .op name false :: .op _ _ :: rest, hw, _ => simp [wf] at hw
+  | .term b :: .op name false :: [], hw, _ => simp [wf] at hw
+  | .term b :: .term _ :: rest, hw, _ => simp [wf] at hw
+  | .op _ _ :: rest, hw, _ => simp [wf] at hw
+  | [.term b], _, hl => simp at hl
+
+/-- `__check` on a well-shaped stack whose operators are in the table never fails -/
+theorem pcheck_ok (tbl : List OpEntry) (stack : List StackItem) (op : String) (hw : wf true stack = true)
+    (ho : opsIn tbl stack) (hop : (tableFind tbl op false).isSome = true) :
+    ∃ b, pcheck tbl stack op = .ok b ∧ (b = true → 1 < stack.length) := by
+  match stack, hw with
+  | [.term t], _ => exact ⟨false, rfl, by simp⟩
+  | .term t :: .op pn pu :: rest, hw =>
+    have hp : (tableFind tbl pn pu).isSome = true := ho (.op pn pu) (by simp)
+    obtain ⟨e, he⟩ := Option.isSome_iff_exists.mp hop
+    obtain ⟨pe, hpe⟩ := Option.isSome_iff_exists.mp hp
+    refine ⟨_, by simp only [pcheck, he, hpe]; rfl, by simp⟩
+  | .term t :: .term _ :: rest, hw => simp [wf] at hw
+  | .op _ _ :: rest, hw => simp [wf] at hw
+  | [], hw => simp [wf] at hw
+
+theorem reduceWhile_ok (tbl : List OpEntry) (op : String) (hop : (tableFind tbl op false).isSome = true) :
+    ∀ (fuel : Nat) (stack : List StackItem), wf true stack = true → opsIn tbl stack → stack.length < fuel →
+      ∃ s, reduceWhile tbl op fuel stack = .ok s ∧ wf true s = true ∧ opsIn tbl s := by
+  intro fuel
+  induction fuel with
+  | zero => intro stack _ _ hl; omega
+  | succ n ih =>
+    intro stack hw ho hl
+    obtain ⟨b, hb, hlen⟩ := pcheck_ok tbl stack op hw ho hop
+    simp only [reduceWhile, hb, ok_bind]
+    cases b with
+    | false => exact ⟨stack, by simp, hw, ho⟩
+    | true =>
+      obtain ⟨s, hs, hw', ho', hl'⟩ := preduce_ok tbl stack hw ho (hlen rfl)
+      obtain ⟨s', hs', hw'', ho''⟩ := ih s hw' ho' (by omega)
+      exact ⟨s', by simp [hs, hs'], hw'', ho''⟩
+
+/-- pushing the operators of one element: either a diagnostic, or a stack that expects an operand -/
+theorem pushOps_ok (tbl : List OpEntry) :
+    ∀ (ops : List String) (unary : Bool) (stack : List StackItem), wf (!unary) stack = true → opsIn tbl stack →
+      (∃ m, pushOps tbl ops unary stack = .error (.runtime m)) ∨
+      (∃ s, pushOps tbl ops unary stack = .ok s ∧ opsIn tbl s ∧ wf (ops.isEmpty && !unary) s = true) := by
+  intro ops
+  induction ops with
+  | nil =>
+    intro unary stack hw ho
+    right
+    exact ⟨stack, rfl, ho, by simpa using hw⟩
+  | cons op ops ih =>
+    intro unary stack hw ho
+    simp only [pushOps]
+    by_cases hnone : (tableFind tbl op unary).isNone = true
+    · left
+      simp only [hnone, if_true, py_throw]
+      exact ⟨_, rfl⟩
+    · have hsome : (tableFind tbl op unary).isSome = true := by
+        cases h : tableFind tbl op unary <;> simp_all
+      simp only [hnone, Bool.false_eq_true, if_false, pure_bind, py_pure, ok_bind]
+      cases unary with
+      | true =>
+        simp only [if_true, py_pure, ok_bind]
+        have hw' : wf (!true) (.op op true :: stack) = true := by simpa [wf] using hw
+        rcases ih true (.op op true :: stack) hw' (opsIn_cons_op ho hsome) with h | ⟨s, hs, ho', hw''⟩
+        · exact Or.inl h
+        · right; exact ⟨s, hs, ho', by simpa using hw''⟩
+      | false =>
+        simp only [Bool.false_eq_true, if_false]
+        obtain ⟨s1, hs1, hw1, ho1⟩ := reduceWhile_ok tbl op hsome (stack.length + 1) stack (by simpa using hw) ho (by omega)
+        simp only [hs1, ok_bind]
+        have hw' : wf (!true) (.op op false :: s1) = true := by simpa [wf] using hw1
+        rcases ih true (.op op false :: s1) hw' (opsIn_cons_op ho1 hsome) with h | ⟨s, hs, ho', hw''⟩
+        · exact Or.inl h
+        · right; exact ⟨s, hs, ho', by simpa using hw''⟩
+
+/-- what clingo's grammar guarantees for an unparsed theory term: every element but the first starts with an operator -/
+def elemsOK (unary : Bool) : List UElem → Prop
+  | [] => True
+  | e :: rest => (unary = true ∨ e.ops ≠ []) ∧ ∀ e' ∈ rest, e'.ops ≠ []
+
+theorem pushElems_ok (tbl : List OpEntry) :
+    ∀ (es : List UElem) (unary : Bool) (stack : List StackItem), elemsOK unary es → wf (!unary) stack = true → opsIn tbl stack →
+      (∃ m, pushElems tbl es unary stack = .error (.runtime m)) ∨
+      (∃ s, pushElems tbl es unary stack = .ok s ∧ opsIn tbl s ∧ wf (!(es.isEmpty) || !unary) s = true) := by
+  intro es
+  induction es with
+  | nil =>
+    intro unary stack _ hw ho
+    right
+    exact ⟨stack, rfl, ho, by simpa using hw⟩
+  | cons e es ih =>
+    intro unary stack hok hw ho
+    simp only [pushElems]
+    rcases pushOps_ok tbl e.ops unary stack hw ho with ⟨m, hm⟩ | ⟨s, hs, ho', hw'⟩
+    · left; exact ⟨m, by simp [hm]⟩
+    · simp only [hs, ok_bind]
+      have hshape : wf false s = true := by
+        have : (e.ops.isEmpty && !unary) = false := by
+          rcases hok.1 with h | h
+          · simp [h]
+          · have : e.ops.isEmpty = false := by
+              cases hh : e.ops with
+              | nil => exact absurd hh h
+              | cons _ _ => rfl
+            simp [this]
+        rw [this] at hw'; exact hw'
+      have hw2 : wf (!false) (.term (.leaf e.term) :: s) = true := by simpa [wf] using hshape
+      have hok2 : elemsOK false es := by
+        cases es with
+        | nil => trivial
+        | cons e2 rest =>
+          exact ⟨Or.inr (hok.2 e2 List.mem_cons_self), fun e' he' => hok.2 e' (List.mem_cons_of_mem _ he')⟩
+      rcases ih false (.term (.leaf e.term) :: s) hok2 hw2 (opsIn_cons_term ho') with h | ⟨s', hs', ho'', hw''⟩
+      · exact Or.inl h
+      · right; exact ⟨s', hs', ho'', by simpa using hw''⟩
+
+theorem reduceAll_ok (tbl : List OpEntry) :
+    ∀ (fuel : Nat) (stack : List StackItem), wf true stack = true → opsIn tbl stack → stack.length < fuel →
+      ∃ t, reduceAll fuel stack = .ok [.term t] := by
+  intro fuel
+  induction fuel with
+  | zero => intro stack _ _ hl; omega
+  | succ n ih =>
+    intro stack hw ho hl
+    simp only [reduceAll]
+    by_cases hlen : stack.length > 1
+    · obtain ⟨s, hs, hw', ho', hl'⟩ := preduce_ok tbl stack hw ho hlen
+      obtain ⟨t, ht⟩ := ih s hw' ho' (by omega)
+      exact ⟨t, by simp [hlen, hs, ht]⟩
+    · simp only [hlen, if_false]
+      match stack, hw with
+      | [.term t], _ => exact ⟨t, rfl⟩
+      | [], hw => simp [wf] at hw
+      | .op _ _ :: _, hw => simp [wf] at hw
+      | .term _ :: _ :: _, _ => simp at hlen
+
+/-- **`TheoryParser.parse` never ends in an internal error**: on every non-empty element list of the shape
+    clingo's grammar produces and every operator table, the result is a tree or the diagnostic
+    "invalid operator in temporal formula" -/
+theorem stackParse_noInternal (tbl : List OpEntry) (elems : List UElem) (hne : elems ≠ []) (hok : elemsOK true elems) :
+    NoInternal (stackParse tbl elems) := by
+  unfold stackParse
+  rcases pushElems_ok tbl elems true [] hok (by simp [wf]) (by intro x hx; cases hx) with ⟨m, hm⟩ | ⟨s, hs, ho, hw⟩
+  · rw [hm]; exact noInternal_runtime m
+  · have hne' : elems.isEmpty = false := by
+      cases elems with
+      | nil => exact absurd rfl hne
+      | cons _ _ => rfl
+    simp only [hne', Bool.not_false, Bool.true_or] at hw
+    obtain ⟨t, ht⟩ := reduceAll_ok tbl (s.length + 1) s hw ho (by omega)
+    simp only [hs, ok_bind, ht]
+    exact noInternal_ok _
+
+end TelProofs
